@@ -5,7 +5,6 @@ package cache
 import (
 	"errors"
 	"fmt"
-	"sort"
 	"sync"
 	"time"
 
@@ -28,11 +27,6 @@ type Cache[k comparable, v any] struct {
 type Entry[v any] struct {
 	used  time.Time
 	value v
-}
-
-type sortKeys[k comparable] struct {
-	keys   []k
-	lessFn func(a, b k) bool
 }
 
 type Opts[k comparable, v any] struct {
@@ -261,66 +255,45 @@ func (c *Cache[k, v]) pruneCount() {
 	if c.minCount <= 0 || len(c.entries) <= c.minCount {
 		return
 	}
-	// sort key list by last used date
-	keyList := make([]k, 0, len(c.entries))
-	for key := range c.entries {
-		keyList = append(keyList, key)
-	}
-	sk := sortKeys[k]{
-		keys: keyList,
-		lessFn: func(a, b k) bool {
-			return c.entries[a].used.Before(c.entries[b].used)
-		},
-	}
-	sort.Sort(&sk)
-	delLen := len(keyList) - c.minCount
-	delCount := 0
-	for _, key := range keyList {
-		if c.entries[key] == nil {
-			// removed while the lock was released below
-			continue
+	// entries are pruned one at a time, the lock may be released while waiting for an entry,
+	// the least recently used entry and the number of entries are read again after every wait
+	skip := map[k]bool{}
+	for tries := 4*len(c.entries) + 4; len(c.entries) > c.minCount && tries > 0; tries-- {
+		var key k
+		var e *Entry[v]
+		for ck, ce := range c.entries {
+			if !skip[ck] && (e == nil || ce.used.Before(e.used)) {
+				key, e = ck, ce
+			}
+		}
+		if e == nil {
+			break
 		}
 		if c.pruneFn != nil {
 			if c.prunePreFn != nil {
 				// the pre function may wait for a lock whose holder is waiting for the cache lock,
 				// release the cache lock and verify the entry is unchanged and was not used in the meantime
-				e := c.entries[key]
 				used := e.used
 				c.mu.Unlock()
 				c.prunePreFn(key, e.value)
 				c.mu.Lock()
-				if c.entries[key] != e || !e.used.Equal(used) {
+				if c.entries[key] != e || !e.used.Equal(used) || len(c.entries) <= c.minCount {
 					if c.prunePostFn != nil {
 						c.prunePostFn(key, e.value)
 					}
 					continue
 				}
 			}
-			err := c.pruneFn(key, c.entries[key].value)
+			err := c.pruneFn(key, e.value)
 			if c.prunePostFn != nil {
-				c.prunePostFn(key, c.entries[key].value)
+				c.prunePostFn(key, e.value)
 			}
 			if err != nil {
-				c.entries[key].used = time.Now()
+				e.used = time.Now()
+				skip[key] = true
 				continue
 			}
 		}
 		delete(c.entries, key)
-		delCount++
-		if delCount >= delLen {
-			break
-		}
 	}
-}
-
-func (sk *sortKeys[k]) Len() int {
-	return len(sk.keys)
-}
-
-func (sk *sortKeys[k]) Less(i, j int) bool {
-	return sk.lessFn(sk.keys[i], sk.keys[j])
-}
-
-func (sk *sortKeys[k]) Swap(i, j int) {
-	sk.keys[i], sk.keys[j] = sk.keys[j], sk.keys[i]
 }
